@@ -79,6 +79,7 @@ type replicaKnobs struct {
 	Preconstr  bool   `json:"preconstruct"` // build an unused app first in the same process
 	Schedule   int64  `json:"schedule"`     // seed for interleaved CheckTx/queries (0 = none)
 	QueryStorm int    `json:"query_storm"`  // concurrent query goroutines while blocks execute
+	NoSimulate bool   `json:"no_simulate,omitempty"` // diagnosis only: the same schedule with the Simulate calls left out
 	RestartAt  []int  `json:"restart_at"`   // heights after whose commit the app is reopened from its DB
 	GOMAXPROCS int    `json:"gomaxprocs"`
 	GOGC       int    `json:"gogc"`
@@ -158,8 +159,11 @@ func runReplica(f histFile, k replicaKnobs, dir string, onBoundary func(n *vn.No
 				}
 			case 2:
 				if len(allTxs) > 0 {
-					_, _, _ = n.App.BaseApp.Simulate(allTxs[rng.Intn(len(allTxs))])
-					stats["noise/simulate"]++
+					tx := allTxs[rng.Intn(len(allTxs))]
+					if !k.NoSimulate {
+						_, _, _ = n.App.BaseApp.Simulate(tx)
+						stats["noise/simulate"]++
+					}
 				}
 			default:
 				for _, p := range []string{"/cosmos.bank.v1beta1.Query/TotalSupply", "/ethermint.evm.v1.Query/Params", "/cosmos.staking.v1beta1.Query/Validators", "/haqq.coinomics.v1.Query/Params", "/ethermint.feemarket.v1.Query/BaseFee"} {
@@ -238,6 +242,25 @@ func runReplica(f histFile, k replicaKnobs, dir string, onBoundary func(n *vn.No
 		}
 	}
 	return traces, stats, nil
+}
+
+// firstTxDiff returns the first pair of differing transaction results of two traces.
+func firstTxDiff(a, b []blockTrace) (p, q txTrace, ok bool) {
+	for i := range a {
+		if i >= len(b) || len(a[i].Txs) != len(b[i].Txs) {
+			return p, q, false
+		}
+		for j := range a[i].Txs {
+			x, y := a[i].Txs[j], b[i].Txs[j]
+			if x.Code != y.Code || x.Data != y.Data || x.GasWanted != y.GasWanted || x.GasUsed != y.GasUsed || x.Codespace != y.Codespace {
+				return x, y, true
+			}
+		}
+		if a[i].AppHash != b[i].AppHash {
+			return p, q, false
+		}
+	}
+	return p, q, false
 }
 
 // compareTraces returns the first divergence between two traces ("" if none) and the
